@@ -98,6 +98,33 @@ def allinvalid_lines(sim):
     return out
 
 
+def route_lines(sim):
+    """C07's routing kernel against the code: for every send that resolved all of its keys from the cache (no
+    metadata/coordinator load in its step) the requests the real client issued in that step - broker node and
+    payload indices per request, in issue order - must be what the Lean kernel `route` computes from the cache
+    dump taken just before the step.  -> [(driver line, expected answer, step line)]"""
+    from harness.lib.client_sim import six
+    out = []
+    prev = None
+    node_of = {}
+    for st in sim.steps:
+        for o in st["obs"]:
+            w = o.split(" ")
+            if w[0] == "bcNew":
+                node_of[w[1]] = w[2]
+        w = st["line"].split(" ")
+        if w[0] == "send" and prev is not None and st["dump"] is not None:
+            obs = [o for o in st["obs"] if not o.startswith("t-")]
+            mks = [o.split(" ") for o in obs if o.startswith("mk ")]
+            attrs = {o.split(" ")[1]: o.split(" ")[3] for o in st["obs"] if o.startswith("t-attr ")}
+            if mks and all(m[4].startswith("payloads:") for m in mks) and all(m[1] in attrs for m in mks):
+                groups = ";".join("%s=%s" % (node_of[m[2]], attrs[m[1]]) for m in mks)
+                out.append(("mon-route %s %s %s" % (w[2], w[5], six(prev)), "groups " + groups, st["line"]))
+        if st["dump"] is not None:
+            prev = st["dump"]
+    return out
+
+
 def compare(sim, got, off):
     """-> (index of the first disagreeing step or None, detail). got[off] answers the cfg line."""
     from harness.lib.client_sim import model_obs
@@ -125,7 +152,11 @@ def evaluate(ctx_model, scn, sim, focus, want_mon=("c07",)):
     extra = []
     if "c08" in focus or focus == "all":
         extra = mirror_lines(sim) + allinvalid_lines(sim)
-    got = ctx_model("client", lines + tl + [e[0] for e in extra])
+    routes = route_lines(sim) if focus in ("c07", "all") else []
+    # the monitors on the MODEL's own trace of the same events (the soundness statements
+    # Cxx_model_traces_satisfy_monitor, proved for C11, open for C07/C20, are evaluated on every scenario)
+    mmon = [m for m in want_mon if m in ("c07", "c11", "c20")]
+    got = ctx_model("client", lines + tl + [e[0] for e in extra] + [r[0] for r in routes] + ["mon-%s-model" % m for m in mmon])
     out = {"dis": None, "mon": []}
     if sim.stray:
         out["dis"] = {"what": "observations outside any step (harness)", "impl": sim.stray[:5]}
@@ -145,7 +176,19 @@ def evaluate(ctx_model, scn, sim, focus, want_mon=("c07",)):
     for (l, stepline), v in zip(extra, ex):
         if v != ["ok"]:
             out["mon"].append({"monitor": "c08", "messages": ["%s -> %s at step %s" % (l.split(" ")[0], v, stepline)]})
+    rt = got[len(lines) + len(tl) + len(extra):]
+    for (l, want, stepline), v in zip(routes, rt):
+        if v != [want]:
+            out["mon"].append({"monitor": "c07", "messages": ["the requests of a send resolved from the cache are not what the kernel route computes: kernel %s, client %s at step %s" % (v, want, stepline)]})
+    mm = got[len(lines) + len(tl) + len(extra) + len(routes):]
+    wellformed = not any(x == "bad-op" or (isinstance(x, str) and x.startswith("bad-op")) for g in got[:len(lines)] for x in g)
+    if out["dis"] is None and wellformed:
+        for m, v in zip(mmon, mm):
+            if v != ["ok"]:
+                msgs = v[0][5:].split(" ; ") if v and v[0].startswith("fail ") else [repr(v)]
+                out["mon"].append({"monitor": m, "messages": ["the MODEL's own trace is rejected by the %s monitor: %s" % (m, x) for x in msgs]})
     out["nmirror"] = len(extra)
+    out["nroute"] = len(routes)
     return out
 
 
@@ -185,7 +228,7 @@ def run_batch(model, seed, n, focus, want_mon, prefix_scn=None, timeout_s=None):
 
     CC.quiet()
     rng = random.Random(seed)
-    out = {"n": 0, "hist": {}, "distinct": [], "dis": [], "mon": [], "samples": [], "errors": [], "nmirror": 0}
+    out = {"n": 0, "hist": {}, "distinct": [], "dis": [], "mon": [], "samples": [], "errors": [], "nmirror": 0, "nroute": 0}
     t0 = time.time()
     for it in range(n):
         if timeout_s and time.time() - t0 > timeout_s:
@@ -213,6 +256,7 @@ def run_batch(model, seed, n, focus, want_mon, prefix_scn=None, timeout_s=None):
         for k, v in f.items():
             out["hist"][k] = out["hist"].get(k, 0) + v
         out["nmirror"] += ev["nmirror"]
+        out["nroute"] += ev.get("nroute", 0)
         if nontrivial(focus, f):
             out["distinct"].append(json.dumps(scn["cmds"], sort_keys=True))
         if len(out["samples"]) < 2 and nontrivial(focus, f):
@@ -231,7 +275,7 @@ def _worker(args):
     try:
         return run_batch(core.run_model, seed, n, focus, want_mon, timeout_s=timeout_s)
     except Exception:
-        return {"n": 0, "hist": {}, "distinct": [], "dis": [], "mon": [], "samples": [], "errors": [traceback.format_exc()[-1500:]], "nmirror": 0}
+        return {"n": 0, "hist": {}, "distinct": [], "dis": [], "mon": [], "samples": [], "errors": [traceback.format_exc()[-1500:]], "nmirror": 0, "nroute": 0}
 
 
 def still_fails(model, scn, focus, want_mon, kind, key):
@@ -282,6 +326,7 @@ def merge(res, ctx, outs, focus, pid):
         for s in o["samples"]:
             res.sample(s, limit=3)
         res.extra["mirror_checks"] = res.extra.get("mirror_checks", 0) + o["nmirror"]
+        res.extra["route_kernel_checks"] = res.extra.get("route_kernel_checks", 0) + o.get("nroute", 0)
         for e in o["errors"]:
             res.disagreements.append({"component": "client-net", "what": "harness/scenario crashed", "trace": e})
         for d in o["dis"]:
